@@ -129,9 +129,12 @@ func (g *vgen) fieldID() int16 {
 
 // bigFlat builds a container with many small elements (counts around 512/1024/2048), outside the node budget.
 func (g *vgen) bigFlat(ty int8) ref.Value {
-	n := rapid.SampledFrom([]int{255, 256, 257, 511, 512, 513, 1023, 1024, 1025, 1500, 2049, 4095, 4096, 4097, 65535, 65536, 65537}).Draw(g.t, "bigN")
-	if n > 5000 && ty != ref.LIST && ty != ref.SET {
+	n := rapid.SampledFrom([]int{255, 256, 257, 511, 512, 513, 1023, 1024, 1025, 1500, 2049, 4095, 4096, 4097, 16383, 16384, 16385, 16386, 32767, 32768, 32769, 65535, 65536, 65537}).Draw(g.t, "bigN")
+	if n > 5000 && ty == ref.STRUCT {
 		n = 257
+	}
+	if n > 33000 && ty == ref.MAP {
+		n = 16385
 	}
 	small := []int8{ref.BOOL, ref.BYTE, ref.I16, ref.I32, ref.I64, ref.DOUBLE, ref.STRING}
 	elem := func(t int8, i int) ref.Value {
@@ -146,6 +149,9 @@ func (g *vgen) bigFlat(ty int8) ref.Value {
 		v.KT, v.ET = rapid.SampledFrom(small).Draw(g.t, "bigK"), rapid.SampledFrom(small).Draw(g.t, "bigV")
 		if v.KT == ref.BOOL {
 			v.KT = ref.I32
+		}
+		if n > 5000 { // keep very wide maps small in bytes
+			v.KT, v.ET = rapid.SampledFrom([]int8{ref.I16, ref.I32, ref.BYTE}).Draw(g.t, "bigK1"), rapid.SampledFrom([]int8{ref.BOOL, ref.BYTE, ref.I16}).Draw(g.t, "bigV1")
 		}
 		for i := 0; i < n; i++ {
 			v.Elems = append(v.Elems, elem(v.KT, i), elem(v.ET, i+1))
